@@ -75,6 +75,24 @@ def call_fn_value(ex, st, f, argvals):
             yield st, ("adt", fv[1], fv[1].rsplit("::", 1)[-1], tuple(argvals))
             return
         cands = [g for g in (ex.facts.fns.get(fv[1]),) if g is not None]
+        if not cands and argvals:
+            # a trait method used as a function value (`.flat_map(Trait::method)`): resolved by the concrete type of the receiver
+            recv = argvals[0]
+            for _ in range(4):
+                if recv[0] == "ref":
+                    recv = ex.load(st, recv[1])
+                elif recv[0] == "&":
+                    recv = recv[1]
+                else:
+                    break
+            if recv[0] == "adt" and "::" in fv[1]:
+                trait, meth = fv[1].rsplit("::", 1)
+                for im in ex.facts.impls_of(trait):
+                    if im["self_ty"].split("<")[0] == recv[1]:
+                        g = ex.facts.impl_fn(im, meth)
+                        if g is not None:
+                            cands = [g]
+                            break
         if cands:
             for s2, kind, val in ex.call_fn(cands[0], list(argvals), st, None):
                 if kind == "ret":
@@ -193,6 +211,13 @@ def step(ex, st, T):
             else:
                 expr, hole = mapper
                 yield s2, _subst(expr, hole, it), T2
+        return
+    if k == "array" or (k == "call" and T[1] == "vec!"):
+        # a collection used where an IntoIterator is expected (e.g. the second operand of chain): iterate its elements by reference
+        items = _array_items(ex, st, T)
+        if items is None:
+            raise NotConcrete("collection of unknown length")
+        yield from step(ex, st, ("citer", tuple(("&", x) for x in items), 0))
         return
     if k != "call":
         raise NotConcrete("iterator value %s" % (k,))
